@@ -88,7 +88,7 @@ def ringMachine : Machine RingD where
     | "len" => some (toString (d.s.tail - d.s.head))
     | _ => none
   describe d t := reprStr (d.s.thr t) ++ s!" head={d.s.head} tail={d.s.tail} enqTail={d.s.enqTail} deqHead={d.s.deqHead} origin={d.origin}"
-  cmpVal tag := tag != "am.len" && tag != "am.p.fetch" && tag != "am.c.fetch" && tag != "am.c.chkhead"
+  cmpVal tag := tag != "am.len" && tag != "am.len.head" && tag != "am.p.fetch" && tag != "am.c.fetch" && tag != "am.c.chkhead"
 
 /-! ### M1/32 Ring32 — the `u32` arithmetic of the source; counters start at the residue `origin`; hook values compared as they are -/
 structure Ring32D where
@@ -134,7 +134,7 @@ def ring32Machine : Machine Ring32D where
     | "len" => some (toString (Mutiny.U32.len32 d.s.tail d.s.head))
     | _ => none
   describe d t := reprStr (d.s.thr t) ++ s!" head={d.s.head} tail={d.s.tail} enqTail={d.s.enqTail} deqHead={d.s.deqHead} panicked={d.panicked}"
-  cmpVal tag := tag != "am.len" && tag != "am.p.fetch" && tag != "am.c.fetch" && tag != "am.c.chkhead"
+  cmpVal tag := tag != "am.len" && tag != "am.len.head" && tag != "am.p.fetch" && tag != "am.c.fetch" && tag != "am.c.chkhead"
 
 /-! ### M2 LockRing -/
 open Mutiny in
@@ -521,7 +521,7 @@ def zeroCopyMachine : Machine ZeroCopy.St where
     | "abs" => some (showList (ZeroCopy.abs s))
     | _ => none
   describe s t := reprStr (s.thr t) ++ s!" free: {reprStr (s.free.thr t)} h={s.free.head} t={s.free.tail} e={s.free.enqTail} d={s.free.deqHead}; q: {reprStr (s.q.thr t)} h={s.q.head} t={s.q.tail} e={s.q.enqTail} d={s.q.deqHead}"
-  cmpVal tag := tag != "am.len" && tag != "am.p.fetch" && tag != "am.c.fetch" && tag != "am.c.chkhead"
+  cmpVal tag := tag != "am.len" && tag != "am.len.head" && tag != "am.p.fetch" && tag != "am.c.fetch" && tag != "am.c.chkhead"
 
 def lookup (kv : List (String × String)) (k : String) : Option String :=
   (kv.find? (·.1 == k)).map (·.2)
